@@ -23,6 +23,8 @@ Ltac leaf_st :=
   | |- pres _ (upd_bind _ _) => apply (pres_modify Rst); intros ?; solve_write_st
   | |- pres _ (upd_var _ _) => apply (pres_modify Rst); intros ?; solve_write_st
   | |- pres _ (upd_obs _ _) => apply (pres_modify Rst); intros ?; solve_write_st
+  | |- pres _ (upd_expert _ _) => apply (pres_modify Rst); intros ?; solve_write_st
+  | |- pres _ (upd_edge _ _) => apply (pres_modify Rst); intros ?; solve_write_st
   | |- pres _ (collect _) => apply (pres_modify Rst); intros ?; solve_write_st
   | |- _ => solve [eauto with pres_st]
   end.
@@ -37,6 +39,15 @@ Lemma st_get_obs n : pres Rst (get_obs n). Proof. prim get_obs. Qed.
 Global Hint Resolve st_get_node st_get_bind st_get_var st_get_obs : pres_st.
 Lemma st_value_of n : pres Rst (value_of n). Proof. prim value_of. Qed.
 Global Hint Resolve st_value_of : pres_st.
+Lemma st_user_call : pres Rst user_call. Proof. prim user_call. Qed.
+Lemma st_get_expert x : pres Rst (get_expert x). Proof. prim get_expert. Qed.
+Lemma st_get_edge x : pres Rst (get_edge x). Proof. prim get_edge. Qed.
+Global Hint Resolve st_user_call st_get_expert st_get_edge : pres_st.
+Lemma st_edge_on_change p e : pres Rst (edge_on_change p e). Proof. prim edge_on_change. Qed.
+Global Hint Resolve st_edge_on_change : pres_st.
+Lemma st_run_edge_callback p x ci : pres Rst (run_edge_callback p x ci). Proof. prim run_edge_callback. Qed.
+Lemma st_observability_change p x b : pres Rst (observability_change p x b). Proof. prim observability_change. Qed.
+Global Hint Resolve st_run_edge_callback st_observability_change : pres_st.
 
 Lemma st_rch_link n : pres Rst (rch_link n). Proof. prim rch_link. Qed.
 Lemma st_rch_unlink n : pres Rst (rch_unlink n). Proof. prim rch_unlink. Qed.
@@ -133,14 +144,29 @@ Lemma st_set_var_wns x v : pres Rst (set_var_while_not_stabilising x v).
 Proof. prim set_var_while_not_stabilising. Qed.
 Lemma st_var_write x f : pres Rst (var_write x f). Proof. prim var_write. Qed.
 Lemma st_observer_read o : pres Rst (observer_read o). Proof. prim observer_read. Qed.
-Lemma st_user_call : pres Rst user_call. Proof. prim user_call. Qed.
-Global Hint Resolve st_set_var_wns st_var_write st_observer_read st_user_call : pres_st.
+Global Hint Resolve st_set_var_wns st_var_write st_observer_read : pres_st.
 Lemma st_drop_var_handle x : pres Rst (drop_var_handle x). Proof. prim drop_var_handle. Qed.
 Global Hint Resolve st_drop_var_handle : pres_st.
 Lemma st_with_var_handle x m : pres Rst m -> pres Rst (with_var_handle x m). Proof. intros; unfold with_var_handle; go_st. Qed.
-Lemma st_run_effect a e : pres Rst (run_effect a e). Proof. destruct e; unfold run_effect; try (apply st_with_var_handle); go_st. Qed.
+Lemma st_assert_running_is_child n : pres Rst (assert_running_is_child n). Proof. prim assert_running_is_child. Qed.
+Global Hint Resolve st_assert_running_is_child : pres_st.
+Lemma st_expert_make_stale n : pres Rst (expert_make_stale n). Proof. prim expert_make_stale. Qed.
+Lemma st_expert_add_dependency fuel n c cb : pres Rst (expert_add_dependency fuel n c cb). Proof. prim expert_add_dependency. Qed.
+Lemma st_expert_swap n a b c d : pres Rst (expert_swap_children_except_in_kind n a b c d).
+Proof. prim expert_swap_children_except_in_kind. Qed.
+Global Hint Resolve st_expert_make_stale st_expert_add_dependency st_expert_swap : pres_st.
+Lemma st_expert_remove_dependency fuel n e : pres Rst (expert_remove_dependency fuel n e). Proof. prim expert_remove_dependency. Qed.
+Lemma st_expert_invalidate fuel n : pres Rst (expert_invalidate fuel n). Proof. prim expert_invalidate. Qed.
+Lemma st_slot_get sl : pres Rst (slot_get sl). Proof. prim slot_get. Qed.
+Lemma st_slot_set sl v : pres Rst (slot_set sl v). Proof. prim slot_set. Qed.
+Global Hint Resolve st_expert_remove_dependency st_expert_invalidate st_slot_get st_slot_set : pres_st.
+Lemma st_with_handle h k : (forall n, pres Rst (k n)) -> pres Rst (with_handle h k). Proof. intros; unfold with_handle; go_st. Qed.
+Global Hint Extern 1 (pres Rst (with_handle _ _)) => (apply st_with_handle; intros ?; go_st) : pres_st.
+Global Hint Extern 1 (pres Rst (with_var_handle _ _)) => (apply st_with_var_handle; go_st) : pres_st.
+Lemma st_run_effect fuel a e : pres Rst (run_effect fuel a e).
+Proof. destruct e; unfold run_effect; go_st. Qed.
 Global Hint Resolve st_run_effect : pres_st.
-Lemma st_run_effects a l : pres Rst (run_effects a l). Proof. prim run_effects. Qed.
+Lemma st_run_effects fuel a l : pres Rst (run_effects fuel a l). Proof. prim run_effects. Qed.
 Lemma st_should_cutoff n c a b : pres Rst (should_cutoff n c a b). Proof. prim should_cutoff. Qed.
 Global Hint Resolve st_run_effects st_should_cutoff : pres_st.
 Lemma st_child_changed fuel : forall p c ci old, pres Rst (child_changed fuel p c ci old).
